@@ -551,7 +551,7 @@ Fixpoint wf_comps (cs : list str) (first : bool) : bool :=
   | c :: r => negb (is_nil c) && wf_comps r false
   end.
 
-Definition wf_path (s : str) : bool := wf_comps (comps s) true.
+Definition wf_path_comps (s : str) : bool := wf_comps (comps s) true.
 
 Inductive ctok :=
 | CChr (c : N) | CQ | CStar | CCls (neg : bool) (body : str)
@@ -690,14 +690,128 @@ Fixpoint pmatch (fuel : nat) (pcs : list pcomp) (cs : list str) (e : env) (dir_o
     end
   end.
 
-(* None: the pattern is outside what the reference covers (multi-component or recursive
-   sub-patterns, `**` that is not a complete component). *)
-Definition nglob_ref (dir_always : bool) (p : str) (subs : subs_t) (path : str) : option bool :=
+(* First formulation, component by component.  None: the pattern is outside what it covers
+   (multi-component or recursive sub-patterns, `**` that is not a complete component).  Kept as
+   a cross-check of [nglob_ref] below (E1 compares the two on every generated tree case). *)
+Definition nglob_ref_comps (dir_always : bool) (p : str) (subs : subs_t) (path : str) : option bool :=
   let ts := tokenize p in
   match pat_comps ts subs [] [] [] with
   | None => None
   | Some pcs =>
     let dir_ok := dir_always || ends_starlike subs ts dir_always in
     let cs := comps path in
-    Some (wf_path path && pmatch (S (length pcs + length cs)) pcs cs [] dir_ok)
+    Some (wf_path_comps path && pmatch (S (length pcs + length cs)) pcs cs [] dir_ok)
+  end.
+
+(* ------------------------------------------------------------------------------------------ *)
+(* Reference semantics, second formulation (the one the theorems use)                          *)
+(* ------------------------------------------------------------------------------------------ *)
+
+(* The same documentation, said with explicit path rules and one regular expression per token,
+   without any rule that depends on the neighbours of a token:
+     - a path is canonical: not empty, no leading separator, no two separators in a row;
+     - a literal matches itself; `?` one non-separator character; `[..]`/`[!..]` one
+       non-separator character in / not in the class; `*` any run of non-separator characters;
+       `**/` zero or more complete components; a final `**` any canonical remainder;
+       `${*name}` its sub-pattern as a group the first time, the same text afterwards;
+     - a pattern that ends with a separator (or `**/`) must match the whole path;
+       a final `**` likewise;
+     - any other pattern must match the whole path and the path must not end with a separator
+       (its last component is not empty) -- or, when directories are admitted for the pattern
+       ([dir_always], or the last token is star-like), the path is that plus one separator. *)
+
+Fixpoint no_dslash (s : str) : bool :=
+  match s with
+  | x :: r => match r with
+              | y :: _ => negb ((x =? 47) && (y =? 47)) && no_dslash r
+              | [] => true
+              end
+  | [] => true
+  end.
+
+Definition wf_path (s : str) : bool := negb (is_nil s) && negb (head_is 47 s) && no_dslash s.
+
+Definition ends_sep (s : str) : bool := head_is 47 (rev s).
+
+Definition one_comp : re := RCat (RPlus notslash) (RStr [47]).       (* [^/]+/ *)
+Definition spec_dstarslash : re := RStar one_comp.                   (* ([^/]+/)*       *)
+Definition spec_dstar : re := RCat (RStar one_comp) (RStar notslash).  (* ([^/]+/)*[^/]*  *)
+
+(* one character of the class that is not the separator; None when this cannot be written as one
+   class (a negated body that ends with '-') or the class can only match the separator *)
+Definition spec_cls (inner : str) : option re :=
+  let r := re_cls inner in
+  match r with
+  | RCls neg body =>
+    if negb (cls_accepts neg body 47) then Some r
+    else if neg then (if head_is 45 (rev body) then None else Some (RCls true (body ++ [47])))
+    else None
+  | _ => None
+  end.
+
+(* sub-patterns: no names, no recursive wildcards *)
+Fixpoint spec_sub (ts : list tok) : option (list re) :=
+  match ts with
+  | [] => Some []
+  | t :: r =>
+    match spec_sub r with
+    | None => None
+    | Some rs =>
+      match t with
+      | TLit s => Some (RStr s :: rs)
+      | TQ => Some (notslash :: rs)
+      | TStar => Some (re_star :: rs)
+      | TCls inner => match spec_cls inner with Some c => Some (c :: rs) | None => None end
+      | _ => None
+      end
+    end
+  end.
+
+Fixpoint spec_parts (ts : list tok) (subs : subs_t) (enc : list str) : option (list re) :=
+  match ts with
+  | [] => Some []
+  | t :: r =>
+    match t with
+    | TLit s => match spec_parts r subs enc with Some rs => Some (RStr s :: rs) | None => None end
+    | TQ => match spec_parts r subs enc with Some rs => Some (notslash :: rs) | None => None end
+    | TStar => match spec_parts r subs enc with Some rs => Some (re_star :: rs) | None => None end
+    | TCls inner =>
+      match spec_cls inner, spec_parts r subs enc with
+      | Some c, Some rs => Some (c :: rs)
+      | _, _ => None
+      end
+    | TDStarSlash => match spec_parts r subs enc with Some rs => Some (spec_dstarslash :: rs) | None => None end
+    | TDStar => match r with [] => Some [spec_dstar] | _ => None end
+    | TName n =>
+      if is_nil n then None
+      else if mem_str n enc then
+        match spec_parts r subs enc with Some rs => Some (RRef n :: rs) | None => None end
+      else
+        match spec_sub (tokenize (sub_of n subs)), spec_parts r subs (n :: enc) with
+        | Some sp, Some rs => if is_nil sp then None else Some (RGrp n (rcat sp) :: rs)
+        | _, _ => None
+        end
+    end
+  end.
+
+Definition last_tok (ts : list tok) : option tok := match rev ts with t :: _ => Some t | [] => None end.
+
+Definition pat_ends_sep (ts : list tok) : bool :=
+  match last_tok ts with
+  | Some (TLit s) => ends_sep s
+  | Some TDStarSlash => true
+  | _ => false
+  end.
+
+Definition nglob_ref (dir_always : bool) (p : str) (subs : subs_t) (path : str) : option bool :=
+  let ts := tokenize p in
+  match spec_parts ts subs [] with
+  | None => None
+  | Some ps =>
+    let r := rcat ps in
+    Some (wf_path path &&
+          (if pat_ends_sep ts || is_tdstar (last_tok ts) then accepts r path
+           else (negb (ends_sep path) && accepts r path)
+                || ((dir_always || ends_starlike subs ts dir_always) && ends_sep path
+                    && accepts r (removelast path))))
   end.
